@@ -53,7 +53,11 @@ func CanGlue(a, b ast.Tok) bool {
 	}
 	la, fb := at[len(at)-1], bt[0]
 	if isWordByte(la) && isWordByte(fb) {
-		return false
+		// (a '$' starts a new token wherever it stands: print$.a is print $ . a and
+		// k in$ is k in $; only a bare '$' continues into a following word)
+		if !(fb == '$' && la != '$') {
+			return false
+		}
 	}
 	// (a number may be directly followed by the member operator: a numeric literal
 	// never absorbs an adjacent operator, 2.5.floor() is (2.5).floor())
